@@ -7,8 +7,9 @@
 //     and maxFrag — all through the package's verif hooks;
 //   - updater/osv fromCVSS3 / fromCVSS2: for every (metric name, value) of the
 //     candidate domain the function is called on a vector that repeats that one
-//     metric; the answer is whether it returned an error and which float stores
-//     into an indexed container it performed.  The stores are observed through
+//     metric (once n times, once n+1 times); the answer is whether it returned
+//     an error and which float stores into an indexed container it performed per
+//     copy of the metric (stores made once per call are left out).  The stores are observed through
 //     verifhook.Point("rx.store", …) calls which the extractor adds to a private
 //     copy of the package's sources (go build -overlay) after every `x[i] = …`
 //     statement; built without that overlay the probe sees no stores.
@@ -120,19 +121,45 @@ func runOsv(in osvIn, prefix string, extraNames, extraValues []string, f func(st
 	if copies < 1 {
 		copies = 1
 	}
+	vector := func(n, v string, k int) string {
+		ms := make([]string, k)
+		for i := range ms {
+			ms[i] = n + ":" + v
+		}
+		return prefix + strings.Join(ms, "/")
+	}
 	for _, n := range out.Names {
 		for _, v := range out.Values {
-			ms := make([]string, copies)
-			for i := range ms {
-				ms[i] = n + ":" + v
-			}
-			vec := prefix + strings.Join(ms, "/")
 			stores = stores[:0]
+			vec := vector(n, v, copies)
 			failed := call(func() error { return f(vec) })
 			if failed && len(stores) == 0 {
 				continue
 			}
-			out.Hits = append(out.Hits, osvHit{N: n, V: v, Err: failed, St: append([]store{}, stores...)})
+			first := append([]store{}, stores...)
+			// the same metric once more: a store that belongs to the metric happens once more,
+			// one that is made once per call (a fix-up after the loop) does not
+			stores = stores[:0]
+			vec = vector(n, v, copies+1)
+			call(func() error { return f(vec) })
+			c1, c2 := map[store]int{}, map[store]int{}
+			for _, s := range first {
+				c1[s]++
+			}
+			for _, s := range stores {
+				c2[s]++
+			}
+			h := osvHit{N: n, V: v, Err: failed, St: []store{}}
+			for _, s := range first {
+				if c1[s] > 0 && c2[s] > c1[s] {
+					h.St = append(h.St, s)
+				}
+				c1[s] = 0
+			}
+			if failed && len(h.St) == 0 {
+				continue
+			}
+			out.Hits = append(out.Hits, h)
 		}
 	}
 	return out
